@@ -60,8 +60,16 @@ fn menu() -> Vec<Expr> {
     m.push(p(Action::FPrintf("/dev/stdout".into(), vec![Fmt::Field(Field::Name)])));
     m.push(p(Action::FPrint("/dev/stdout".into())));
     // names that differ only by leading dots and slashes
-    for f in ["../f", "./f", ".f", "/f"] {
+    for f in ["../f", "./f", ".f", "/f", "d//f", "d/f", "d/./f", "f/", "f\n", "f\0"] {
         m.push(p(Action::FPrint(f.into())));
+    }
+    // a name that ends in the other action's terminator
+    m.push(p(Action::FPrintf("f\n".into(), vec![Fmt::Field(Field::Name)])));
+    m.push(p(Action::FPrintf("f\0".into(), vec![Fmt::Field(Field::Name)])));
+    m.push(p(Action::FPrintf("d/f".into(), vec![Fmt::Field(Field::Name)])));
+    // star runs behind a backslash, equivalent globs
+    for pat in ["\\*", "\\**", "a**b", "a*b", "core\\*", "core\\***"] {
+        m.push(Expr::Test(Test::Name(pat.into())));
     }
     m
 }
